@@ -37,3 +37,21 @@ Print Assumptions C15_initial_box_is_closed.
 Example C15_wf_example :
   exists c, build 3 (0,0,0)%Z (8,8,8)%Z (2,2,2)%Z [(1, 0, (6,6,6))%Z] = Some c /\ length (cverts c) = 10%nat.
 Proof. eexists. split; vm_compute; reflexivity. Qed.
+
+(* ---- with_faces / sort_face_vertices (the transcription compared with the implementation on every 3D cell):
+   the walk around a face only reorders the face's vertex list - no vertex lost or duplicated, first vertex fixed - and
+   every vertex it places shares, with its predecessor, the plane the walk was looking for: consecutive vertices are
+   joined by an edge of the face (the last vertex is placed by elimination, exactly as in the code) *)
+From Coq Require Import Permutation.
+From MV Require Import Proofs.FaceWalk.
+
+Theorem C15_face_walk_is_permutation : forall vs p vi vi', sort_face_vertices vs p vi = Some vi' ->
+  Permutation vi vi' /\ hd_error vi' = hd_error vi.
+Proof. exact sort_face_vertices_perm. Qed.
+Print Assumptions C15_face_walk_is_permutation.
+
+Theorem C15_face_walk_follows_edges : forall vs p vi vi', sort_face_vertices vs p vi = Some vi' ->
+  forall k, (S k < pred (length vi'))%nat ->
+  dual_has (vd (nth (nth (S k) vi' 0%nat) vs vdefault)) (np_of vs p (nth k vi' 0%nat)) = true.
+Proof. exact sort_face_vertices_walk. Qed.
+Print Assumptions C15_face_walk_follows_edges.
